@@ -89,7 +89,7 @@ P("C06", [f"{RED}:merge_breakpoints"], "bounded/C06.py",
 
 P("C07", [f"{RED}:merge_breakpoints", f"{UT}:get_binsize", f"{ING}:_validate_pixels", f"{CR}:write_pixels"], "bounded/C07.py",
   "Proof core: merge_breakpoints (shared with C06); write_pixels (the append loop the merged stream goes through) is verified with ghost dataset contents for EVERY number of chunks and chunk lengths: each pixel column is the concatenation of the chunks in order, its length is the returned nnz, the returned total is the sum of the count column in the integer AND the float configuration (no truncation of float sums). Bounded stand-in for the rest (all small input families x mergebuf x orders x nestings x dtype limits).",
-  level="other write_pixels (the append loop every producer goes through) is verified with ghost dataset contents for EVERY number of chunks and chunk lengths: each pixel column ends up as the concatenation of that column over the chunks in order, its length is the returned nnz (pre-allocated rows dropped when nothing arrived), the returned total is the sum of the count column (integer and float configurations), only the target group of the target file is touched, always opened r+.", unverified=["CoolerMerger.__init__/__iter__ (pandas concat/groupby-sum per epoch)", "merge_coolers (compatibility checks)"])
+  level="other", unverified=["CoolerMerger.__init__/__iter__ (pandas concat/groupby-sum per epoch)", "merge_coolers (compatibility checks)"])
 
 P("C08", [f"{RED}:_greedy_prune_partition", f"{RED}:CoolerCoarsener.__init__", f"{UT}:get_binsize"], "bounded/C08.py",
   "Proof core: CoolerCoarsener.__init__ builds, for every chromosome layout, factor and chunk size, a pixel partition whose every edge is the offset of a coarse-row start (bin1_offset[chrom_offset[c] + g*factor]) or nnz (loop invariant with ghost witnesses; Cooler/GenomeSegmentation by assumed models), and _greedy_prune_partition keeps only values of that edge list, ordered, from 0 to nnz - so no coarse row is ever split across spans; get_binsize (which decides the re-binning path) is truthful (C20). Bounded stand-in for the rest (all small coolers x factors x chunk sizes x workers against a block-aggregate model).",
@@ -109,7 +109,7 @@ P("C12", [f"{API}:matrix", f"{API}:Cooler.matrix", f"{RQ}:CSRReader.__call__"], 
   "Proof: api.matrix (sparse and dense outputs) multiplies every raw value by the weight of its own row bin and its own column bin from the selected column (reciprocals when divisive; rows from [i0,i1), columns from [j0,j1) also when the ranges differ, incl. the aliasing shortcut for equal ranges), refuses a missing column with ValueError, and builds the fill-lower engine iff asked with the window as bounding box (engine outputs by assumed model; their content is C03's exactly-once lemma and the CSRReader.__call__ contract, included). Cooler.matrix is proved to pass every option through, with the divisive default exactly for KR/VC/VC_SQRT when the caller passed None and fill_lower = symmetric-upper. The balanced pixel-table branch (annotate) and dump -b are covered by the bounded tier; NaN propagation through * and / is assumed (IEEE), not modelled.", level="other",
   unverified=["api.matrix as_pixels+balance branch (annotate)", "dump --balanced annotator"])
 
-P("C13", [f"{ING}:_validate_pixels", f"{CR}:create", f"{CR}:write_pixels"], "bounded/C13.py", "Proof core: the default validator accepts a chunk iff it has no out-of-range id, no lower-triangle pixel (symmetric mode) and no in-chunk duplicate, raises BadInputError exactly otherwise, and returns the records unchanged (pandas duplicated/sort_values by assumed contract). create() itself is verified as a coordinator over a ghost operation log (every helper and h5py call replaced by a recording stub; 41 configurations of mode/append/root-or-nested target/check flags/input forms/single-cell append, symbolic paths, counts and symmetric flag): the validator is chained onto the caller's pixel stream iff any check is requested, with the bin count and exactly the requested checks (triangularity only in symmetric mode); a refused call opens no file; every write lies inside the target group of the target file; the info record is written once and last, so a stream that fails has left no info record. What an interrupted write leaves on disk is covered by the bounded tier (fault injection at every chunk index).", level="other write_pixels (the append loop every producer goes through) is verified with ghost dataset contents for EVERY number of chunks and chunk lengths: each pixel column ends up as the concatenation of that column over the chunks in order, its length is the returned nnz (pre-allocated rows dropped when nothing arrived), the returned total is the sum of the count column (integer and float configurations), only the target group of the target file is touched, always opened r+.",
+P("C13", [f"{ING}:_validate_pixels", f"{CR}:create", f"{CR}:write_pixels"], "bounded/C13.py", "Proof core: the default validator accepts a chunk iff it has no out-of-range id, no lower-triangle pixel (symmetric mode) and no in-chunk duplicate, raises BadInputError exactly otherwise, and returns the records unchanged (pandas duplicated/sort_values by assumed contract). create() itself is verified as a coordinator over a ghost operation log (every helper and h5py call replaced by a recording stub; 41 configurations of mode/append/root-or-nested target/check flags/input forms/single-cell append, symbolic paths, counts and symmetric flag): the validator is chained onto the caller's pixel stream iff any check is requested, with the bin count and exactly the requested checks (triangularity only in symmetric mode); a refused call opens no file; every write lies inside the target group of the target file; the info record is written once and last, so a stream that fails has left no info record. write_pixels (the append loop every producer goes through) is verified with ghost dataset contents for EVERY number of chunks and chunk lengths: each pixel column ends up as the concatenation of that column over the chunks in order, its length is the returned nnz (pre-allocated rows dropped when nothing arrived), the returned total is the sum of the count column (integer and float configurations), only the target group of the target file is touched, always opened r+. What an interrupted write leaves on disk is covered by the bounded tier (fault injection at every chunk index).", level="other",
   unverified=["what a mid-stream exception leaves on disk (write_pixels is proved for complete streams only)", "is_cooler on the partial file (bounded)"])
 
 P("C14", [f"{SEL}:_IndexingMixin._process_slice", f"{SEL}:RangeSelector1D.__getitem__", f"{SEL}:RangeSelector1D.fetch", f"{TOP}:get"], "bounded/C14.py",
